@@ -383,6 +383,11 @@ def run(model, tier="quick"):
     fill_loop_shape(model, res)
     n = isolation_rule(model, res)
     res.floor("fill_loop_call_sites", n, 3)
+    from ..rules.alias import cell_mutation_rule
+    mutating, _nf = cell_mutation_rule(model, res)
+    res.ob("R-INPUT", f"fills shrink the visible book only by rebinding the cell to a NEW list: no in-place mutation reaches a level "
+                      f"list of the loaded data (parameter-mutating functions: {sorted(mutating)})", "demeter/deribit/", ok=_nf == 0)
+    res.floor("functions_mutating_a_parameter", len(mutating), 1)
     res.assumptions = ["order books are lists of [price, size] sorted best-first (data)",
                        "round_decimal / get_new_order_list / _find_available_orders are compared as opaque helpers here "
                        "(round_decimal is checked under C16)"]
